@@ -233,7 +233,7 @@ def rule_reg(chk):
             if pv and t:
                 w[pv[1]] = "".join(x[1] for x in t if x[0] == "lit")
     r = {}
-    for m in F.exprs(pr["thir"], "Match"):
+    for m in F.exprs_deep(f, pr, "Match", depth=1):
         for arm in m["arms"]:
             vs = [a["variant"] for a in F.exprs(arm["body"], "Adt") if short(a["adt"]) == "RegisterType"]
             for alt in F.pat_alternatives(arm["pat"]):
